@@ -350,13 +350,24 @@ var specs = map[string]*CheckSpec{
 	},
 	"C18": {
 		ID: "C18", Patterns: []string{v2Pkg},
-		Runs: []HarnessRun{{Pkg: v2Pkg, Dir: "internal/api/v2", Mod: "ledger", Fn: "ZZ_C18", Shapes: countShapes(v2Pkg, "ZZ_C18N"), Cfg: cmdCfg,
-			Desc: func(s *Session, i int) string { return fmt.Sprintf("bulk of %d element(s), arbitrary actions/outcomes/continueOnFailure", i+1) }, CanaryShapes: []int{0, 1}}},
+		Runs: []HarnessRun{{Pkg: v2Pkg, Dir: "internal/api/v2", Mod: "ledger", Fn: "ZZ_C18", Shapes: func(s *Session, tier string) []int {
+			if tier == "thorough" {
+				return []int{0, 1, 2, 3, 4, 5}
+			}
+			return []int{0, 1, 2, 3, 4}
+		}, Cfg: cmdCfg,
+			Desc: func(s *Session, i int) string {
+				via := "ProcessBulk"
+				if i >= 3 {
+					via = "bulkHandler (JSON body, continueOnFailure parameter, status code, JSON answer)"
+				}
+				return fmt.Sprintf("bulk of %d element(s) through %s, arbitrary actions/outcomes/continueOnFailure", i%3+1, via)
+			}, CanaryShapes: []int{0, 1, 3}}},
 		Bounds: func(tier string) map[string]any {
-			return map[string]any{"elements": "1..3", "actions": "the four known actions and an unknown one, chosen per element", "outcomes": "success or failure per element (symbolic Bool), three error classes", "continueOnFailure": "symbolic Bool", "payloads": "concrete well-formed JSON per action (decoded by the JSON model); malformed payloads are outside this check"}
+			return map[string]any{"elements": "1..3 through ProcessBulk; 1..2 (thorough 3) through bulkHandler with the continueOnFailure parameter spelled true/1/TRUE or absent/false/0", "actions": "the four known actions and an unknown one, chosen per element", "outcomes": "success or failure per element (symbolic Bool), three error classes", "continueOnFailure": "symbolic Bool", "payloads": "concrete well-formed JSON per action (decoded by the JSON model); malformed payloads are outside this check"}
 		},
-		Assumptions: []string{"backend.Ledger is a recording stub whose four write methods succeed or fail as the symbolic inputs say", "encoding/json modelled over ropes", "bulkHandler's HTTP plumbing (body decoding, status code) is not executed; its condition `err != nil || errorsInBulk` is covered through ProcessBulk's results"},
-		Encoded:     []string{"v2.ProcessBulk", "ledger.(*TransactionRequest).ToRunScript", "ledger.TxToScriptData", "command.IsSaveMetaError/IsDeleteMetaError", "engine.IsCommandError", "machine.IsInsufficientFundError"},
+		Assumptions: []string{"backend.Ledger is a recording stub whose four write methods succeed or fail as the symbolic inputs say", "encoding/json modelled over ropes", "the HTTP request is built by the harness (body = JSON model of the Bulk value, recording ResponseWriter); chi routing is not executed"},
+		Encoded:     []string{"v2.bulkHandler", "v2.ProcessBulk", "libs/api.QueryParamBool", "ledger.(*TransactionRequest).ToRunScript", "ledger.TxToScriptData", "command.IsSaveMetaError/IsDeleteMetaError", "engine.IsCommandError", "machine.IsInsufficientFundError"},
 		Rule:        "per bulk length: action and error class are enumerated decisions, failure flags and continueOnFailure are solver variables; backend calls, result positions/types and the failure signal are compared with the in-order reference",
 		Workers:     16,
 		MaxPaths:    func(tier string) int { return 200000 },
